@@ -34,7 +34,9 @@ for _p, _t, _tech in [
     ("C02", "Authz.tla transcribes Authorize step by step (Proc) next to the declarative decision procedure; TLC proves Monotone "
             "(Verdict(T+B)=ok => Verdict(T)=ok) for every instance and refutes it in the negative model (policies after blocks on a shared "
             "world). Every instance is replayed: T, T+B1, T+B1+B2 are built with the real builders and authorized; each verdict must be the "
-            "specification's and the chain must be monotone; unrelated authorizer facts vary the slice capacity behind World.Clone.",
+            "specification's and the chain must be monotone; unrelated authorizer facts vary the slice capacity behind World.Clone; "
+            "run-limit configurations (AuthzMC_lim) with a retry of Authorize after a limit error; seeded random first-order programs "
+            "validated by TLC (TraceAuthz: RefVerdict, Closure, Monotone).",
      "TLA+ step model of Authorize + TLC theorem Monotone over all catalogue instances; spec->code replay of every instance"),
     ("C03", "TLC proves Scoped / Visible / SameWorld / OrderFree for every two-later-block instance (and refutes Scoped without the private "
             "world copy). Replay authorizes the token, the token with each block reduced to its checks, and the token with blocks swapped, "
@@ -54,7 +56,8 @@ for _p, _t, _tech in [
 CLAIMED["C13"] = dict(category="model_checking",
     text="Lifecycle.tla models the authorizer object (New/Add/Authorize/Query/Reset with base world); TLC checks ResetClean on every "
          "history of 2-3 rounds and refutes it for the pinned tree's mechanism (base overwritten after Authorize). Every history is replayed "
-         "on one reused authorizer and each round's verdict and query results must be those of a fresh authorizer (the model's values).",
+         "on one reused authorizer and each round's verdict and query results must be those of a fresh authorizer (the model's values); rounds "
+         "include aborted evaluations, Reset without evaluation, and content arriving through LoadPolicies.",
     design="6/C13", technique="TLA+ lifecycle state machine + TLC invariant ResetClean; spec->code replay of all round histories",
     note=AUTHZ_NOTE)
 CLAIMED["C11"] = dict(category="model_checking",
@@ -62,7 +65,8 @@ CLAIMED["C11"] = dict(category="model_checking",
          "TLC checks NoStranded, NoFalseSuccess, RightSentinel and liveness (CallerReturns, <>[]AllExited under weak fairness) for all "
          "scenarios with the timer firing at any step, and refutes the pinned tree's protocol in three negative models. Every scenario "
          "class is executed on the real engine through all four entry points; outcome sentinel, return time and the goroutine profile "
-         "after return are compared. DatalogRun.tla's limit contract is validated on the real engine by TLC trace validation.",
+         "after return are compared. DatalogRun.tla's limit contract is validated on the real engine by TLC trace validation; Authz.tla's run "
+         "limits (inherited by every per-block world) are replayed on two-later-block tokens incl. a retry after a limit error.",
     design="6/C11", technique="TLA+ model of the goroutine/channel protocol, TLC safety+liveness; spec->code replay of every scenario with goroutine-profile observation",
     note="Trusted: TLC; runtime.Stack as observation of blocked goroutines; timer scenarios depend on real scheduling (either timeout or nominal outcome accepted).")
 CLAIMED["C08"] = dict(category="model_checking",
@@ -96,7 +100,9 @@ CLAIMED["C01"] = dict(category="model_checking",
 CLAIMED["C09"] = dict(category="model_checking",
     text="Chain.tla SealPreserves and the Append/Seal guards over all honest histories; seal mutations are the attacker syntheses of C01 on "
          "given sealed tokens (Unforgeability: final). Replay: sealed twins keep content, revocation ids and verification, refuse Append/Seal "
-         "before and after reload; the Authz instances are authorized with sealed (and sealed+reloaded) tokens and must give the model's verdicts.",
+         "before and after reload; the Authz instances are authorized with sealed (and sealed+reloaded) tokens and must give the model's verdicts; "
+         "wire mutations of sealed and unsealed tokens abstracted into Chain terms (TraceChain); valid tokens written by another encoder "
+         "(raw writer variants and the repository's 28 reference-implementation samples) are sealed, attenuated and reloaded.",
     design="6/C09", technique="TLA+ chain model + TLC (SealPreserves, Unforgeability on sealed tokens); spec->code replay incl. sealed Authz instances",
     note=CHAIN_NOTE)
 CLAIMED["C16"] = dict(category="model_checking",
@@ -124,7 +130,9 @@ CLAIMED["C07"] = dict(category="model_checking",
          "decoding to the input for all short histories. Generated contents (all term types, expressions, sets, shared symbols, 1-4 blocks) "
          "go through the real builders; the bytes are decoded by an independent protowire reader and TLC (TraceWire) checks WellFormed and "
          "Decode(wire) = content. Round trip, byte-identical re-serialization, version gate and byte-stability over sibling histories are "
-         "judged on the real library.",
+         "judged on the real library, also for caller-supplied base symbol tables, for tokens written by another encoder and for the "
+         "repository's reference-implementation samples (documented symbol tables, byte-identical round trip); GetBlockID / GetContext / Checks "
+         "of the reloaded token are validated by TraceWire.",
     design="6/C07", technique="TLA+ symbol-table rules + mechanism model (TLC); TLC trace validation of independently decoded wire bytes",
     note="Trusted: TLC, protowire, the harness' hand-written reader of pb/biscuit.proto. Bounds: histories <=3 blocks x <=2/3 uses (model); generated contents 1-4 blocks.")
 CLAIMED["C10"] = dict(category="exploration",
@@ -132,7 +140,7 @@ CLAIMED["C10"] = dict(category="exploration",
          "cases) with a total specification of the 13-operation panel and fixed outcomes for gate-guarded fields; TLC enumerates and exports "
          "it. Each case is encoded with a raw protowire writer, validly signed by an attacker root so decoding, verification and evaluation "
          "are reached, and the panel runs in an isolated worker (recovered panic or process death = violation), together with 4k/150k seeded "
-         "byte-level corruptions. TLA+ contributes the definition and exhaustive enumeration of the structured space; 'all byte strings' is sampled.",
+         "byte-level corruptions of these tokens and 1.5k/40k of the repository's reference-implementation samples. TLA+ contributes the definition and exhaustive enumeration of the structured space; 'all byte strings' is sampled.",
     design="6/C10 and 8", technique="TLA+ enumeration of the structured adversarial input space (TLC) + isolated-worker replay; seeded byte corruption",
     note="Exploration level: the space of all byte strings cannot be enumerated; coverage = spec-defined field/boundary combinations + random corruption.")
 CLAIMED["C14"] = dict(category="model_checking",
